@@ -34,6 +34,8 @@ let handle cmd =
   match cmd with
   | "dtw" -> let u = rd_usettings () in let s1 = rd_series () in let s2 = rd_series () in
     str_cost (dtw_model u s1 s2)
+  | "pydist" -> let u = rd_usettings () in let s1 = rd_series () in let s2 = rd_series () in
+    str_cost (dist_model u s1 s2)
   | "wps" -> let u = rd_usettings () in let s1 = rd_series () in let s2 = rd_series () in
     str_matrix (wps_matrix u s1 s2)
   | "bp" -> let u = rd_usettings () in let s1 = rd_series () in let s2 = rd_series () in
